@@ -355,11 +355,11 @@ template <class T> static void prop_nsb(pbt::Ctx& c) {
 	PBT_SWEEP("findNSB/" #N, ns_##N, Dom<T>::size * sizeof(T) * 8, 1, 1, "every value x every n: " RULE_NS);
 #define LARGE(T, N) \
 	static void p2_##N(pbt::Ctx& c) { prop_p2<T>(c); } \
-	PBT_RANDOM("pow2/" #N, p2_##N, 600000, 40000000, "powers of two +-2, ties 3*2^k +-1, top of range, uniform inside a binade, structured patterns, random: " RULE_P2); \
+	PBT_RANDOM("pow2/" #N, p2_##N, 600000, 20000000, "powers of two +-2, ties 3*2^k +-1, top of range, uniform inside a binade, structured patterns, random: " RULE_P2); \
 	static void mu_##N(pbt::Ctx& c) { prop_mult<T>(c); } \
-	PBT_RANDOM("multiple/" #N, mu_##N, 1500000, 60000000, "m: 1..16, powers of two +-1, top of range, log-uniform, random; x: q*m+{0,+-1,m/2,m/2+1}, extremes, structured, random: " RULE_MU); \
+	PBT_RANDOM("multiple/" #N, mu_##N, 1500000, 30000000, "m: 1..16, powers of two +-1, top of range, log-uniform, random; x: q*m+{0,+-1,m/2,m/2+1}, extremes, structured, random: " RULE_MU); \
 	static void ns_##N(pbt::Ctx& c) { prop_nsb<T>(c); } \
-	PBT_RANDOM("findNSB/" #N, ns_##N, 600000, 40000000, "structured/random x, n in {random, bitCount, bitCount+1, 1..bitCount}: " RULE_NS);
+	PBT_RANDOM("findNSB/" #N, ns_##N, 600000, 20000000, "structured/random x, n in {random, bitCount, bitCount+1, 1..bitCount}: " RULE_NS);
 
 SMALL(glm::int8, int8, 1)
 SMALL(glm::uint8, uint8, 1)
